@@ -127,3 +127,31 @@ def run(chk):
             chk.eq_array(f"{ptag}.complete", tot, Id, fn=fnn, goal="sum_i e_i == 1", replay=rp)
             chk.eq_array(f"{ptag}.reconstruct", rec, M, fn=fnn, goal="sum_i w_i e_i == M", replay=rp)
             chk.eq_array(f"{ptag}.exp_is_spectral_sum", exp, spec, fn=fnn, goal="exp == sum_i exp(w_i) e_i", replay=rp)
+
+    # degenerate and structured inputs of exp_matrix (the generic proof above lives in a fraction field: A2 says nothing where a denominator vanishes):
+    # multiples of the identity (the QED valence matrix at alpha_em = 0 below NNLO is one), the zero matrix, diagonal matrices with distinct entries
+    for dim in (2, 4):
+        cases = [("zero", [Q(0)] * dim), ("multiple_of_identity", [Q(3, 2)] * dim), ("diagonal_distinct", [Q(k + 1, 2) for k in range(dim)]),
+                 ("diagonal_with_a_repeated_entry", [Q(1, 2)] * 2 + [Q(k + 2) for k in range(dim - 2)])]
+        for cname, diag in cases:
+            M = np.empty((dim, dim), dtype=object)
+            M[:] = Q(0)
+            for i, d_ in enumerate(diag):
+                M[i, i] = d_
+            saved = dict(vnp._HOOKS)
+            vnp._HOOKS["linalg.eig"] = lambda mat, diag=diag, dim=dim: (np.array(diag, dtype=object), vnp.eye(dim))      # eig of a diagonal matrix: its entries, unit vectors
+            tagd = f"C23.eig[dim={dim}].{cname}"
+            try:
+                paths = chk.run_paths(tagd, lambda: ad.exp_matrix(M), [], fn=fnn, replay=rp, goal="no exception on a diagonal / degenerate matrix")
+            finally:
+                vnp._HOOKS.clear()
+                vnp._HOOKS.update(saved)
+            want = np.empty((dim, dim), dtype=object)
+            want[:] = Q(0)
+            for i, d_ in enumerate(diag):
+                want[i, i] = T.app("exp", T.lift(d_)) if d_ != 0 else Q(1)
+            for ptag, pc, (exp, ww, e) in paths:
+                chk.eq_array(f"{ptag}.exp", exp, want, fn=fnn, replay=rp, goal="exp(diag(d)) == diag(exp(d))")
+                tot = sum((e[i] for i in range(dim)), vnp.zeros((dim, dim)))
+                chk.eq_array(f"{ptag}.complete", tot, vnp.eye(dim), fn=fnn, replay=rp, goal="sum_i e_i == 1")
+
